@@ -46,6 +46,11 @@ STREAMS["manifest"] = {
                  "bad": 'Case (s2l "/bundle") (mkManifest 1 [mkMPackage (s2l "git::https://example.com/r.git") (s2l "d") [] []] []) true (Some (mkOpened [(s2l "git::https://example.com/r.git", s2l "/bundle/d", [], [])] [])) [QReverse (s2l "/bundle/e/x") (Some (s2l "git::https://example.com/r.git", s2l "x"))]'},
 }
 STREAMS["reopen"] = {"name": "reopen", "corr": "Corr.RunManifest"}
+STREAMS["prepare"] = {
+    "name": "prepare", "corr": "Corr.RunPrepare",
+    "selftest": {"good": 'CPrepare (Dir 493%N None [(s2l "b", Dir 493%N None [(s2l "w", Dir 493%N None [(s2l "f", File (s2l "x") 420%N None); (s2l "l", Link (s2l "f"))])])]) [s2l "b"; s2l "w"] [true; false; false] (Some (Dir 493%N None [(s2l "f", File (s2l "x") 420%N None); (s2l "l", Link (s2l "f"))]))',
+                 "bad": 'CPrepare (Dir 493%N None [(s2l "b", Dir 493%N None [(s2l "w", Dir 493%N None [(s2l "f", File (s2l "x") 420%N None); (s2l "l", Link (s2l "/b/w/f"))])])]) [s2l "b"; s2l "w"] [true; false; false] (Some (Dir 493%N None [(s2l "f", File (s2l "x") 420%N None); (s2l "l", Link (s2l "/b/w/f"))]))'},
+}
 STREAMS["unpack"] = {"name": "unpack", "corr": "Corr.RunUnpack"}
 _FS_ASSUME = [
     "modelled, not verified: the kernel's path resolution and lstat/stat/mkdir/open(O_CREAT|O_TRUNC)/symlink/chmod/utimensat, Go's os.MkdirAll, filepath.Join/Clean/Rel/Dir on clean absolute paths (FS/FS.v, Slug/Unpack.v); validated on every run: each case executes the real Unpack in a chrooted child whose root is the model's root, and the whole final tree is compared",
@@ -80,7 +85,7 @@ PROPS = {
         "assumptions": _PACK_ASSUME + ["partial on schedules: concurrent Pack calls race on the shared default-rule flags (a Go data race); the theorem covers the reachable flag states, not torn accesses", "C16_history_independent is stated on the abstract ignore walk (Ignore/Prune.v); Pack's walk uses the same decision procedure (Rules.excludes) and is compared with the implementation under both flag states"],
     },
     "C19": {
-        "streams": ["ignore", "pack", "unpack", "resolve", "addr", "manifest"],
+        "streams": ["ignore", "pack", "unpack", "resolve", "addr", "manifest", "prepare"],
         "theorems": "C19_rule_file_never_panics (all rule files), C19_pack_terminates_without_dereference (fuel = height of the tree, all trees), total structurally-terminating path resolution; with dereferencing: concrete hazards terminate (Example) and every run is under a watchdog",
         "assumptions": _PACK_ASSUME + ["partial: panics and loops inside net/url, regexp, archive/tar, encoding/json are outside the model; address parsers and manifest loading are exercised by watched runs (resolve/bundle streams), termination of dereferencing Pack in general is observed (20 s watchdog), not proved"],
     },
@@ -155,6 +160,12 @@ PROPS = {
         "streams": ["reopen", "manifest", "pack", "unpack"],
         "theorems": "C09_reopen_is_a_function_of_the_manifest, C09_root_independent (accessors of open_dir do not depend on the root; forward lookups are the root followed by the same relative components; reverse lookups of corresponding paths agree), C09_reverse_choice_is_deterministic; the archive leg composes C02 (pack/unpack round trip: PARTIAL there) with these",
         "assumptions": _ADDR_ASSUME + _PACK_ASSUME + ["modelled, not verified: encoding/json (MarshalIndent / Unmarshal of the manifest), crypto/sha256 (checksum compared on the implementation only), dirhash; partial: 'the same files after WriteArchive + ExtractArchive' rests on C02's round trip, which is proved piecewise and decided per run by packing, extracting and comparing the trees of real bundles; file times are compared to the archive's one-second resolution"],
+    },
+    "C10": {
+        "streams": ["prepare", "ignore"],
+        "theorems": "C10_prepared_package_is_sane (every file system, rule set, working directory and fuel: an accepted package holds only files, directories and relative links resolving physically to regular files inside it; nothing excluded is left; only deletions happened), C10_only_excluded_removed, C10_special_file_fails, C10_link_must_resolve_inside (escaping and dangling links fail the build), C10_outside_untouched, C10_resolution_monotone_under_deletion; by an invariant over the removal/validation walk (every surviving entry was validated in a file system of which the final one is a part) and monotonicity of path resolution under deletion",
+        "assumptions": _PACK_ASSUME + ["modelled, not verified: filepath.Walk (names read before the walk function sees the directory), os.RemoveAll, filepath.EvalSymlinks (as the kernel's resolution: at most 40 links, the model's bound; Go's own limit is 255), filepath.IsLocal/Rel/Join/Dir, dirhash.HashDir (every non-directory opened and read; names with a newline refused), os.Rename / coalescing with an existing directory of the same hash (the final name is not modelled: the package tree is compared, the 'no .tmp- left' and 'outside untouched' clauses are also checked on the real arena); the builder runs as root in a chroot whose root is the model's root; validated per run: the whole chroot is snapshotted at the moment of the fetch and the final package tree compared with the model's",
+                        "the surrounding state machine (when packages are fetched, poisoning on error) is Bundle/Builder.v (C08/C12/C14)"],
     },
     "C11": {
         "streams": ["resolve"],
